@@ -32,6 +32,7 @@ type c08Node struct {
 	errText  string
 	received [][]*phase0.Attestation
 	msgs     [][]*altair.SyncCommitteeMessage
+	cutOff   bool // the context it was called with was cancelled before it had answered
 }
 
 func (n *c08Node) Name() string    { return n.name }
@@ -54,9 +55,29 @@ func (n *c08Node) act() error {
 	return nil
 }
 
-func (n *c08Node) SubmitAttestations(_ context.Context, atts []*phase0.Attestation) error {
+// actCtx behaves like act but, like a real HTTP client, gives up when its
+// context is cancelled.
+func (n *c08Node) actCtx(ctx context.Context) error {
+	if n.behave == bHang {
+		<-ctx.Done()
+		return ctx.Err()
+	}
+	select {
+	case <-ctx.Done():
+		n.cutOff = true
+		return ctx.Err()
+	case <-time.After(n.latency):
+	}
+	switch n.behave {
+	case bRejectOther, bRejectTolerated:
+		return errors.New(n.errText)
+	}
+	return nil
+}
+
+func (n *c08Node) SubmitAttestations(ctx context.Context, atts []*phase0.Attestation) error {
 	n.received = append(n.received, atts)
-	return n.act()
+	return n.actCtx(ctx)
 }
 
 func (n *c08Node) SubmitSyncCommitteeMessages(_ context.Context, msgs []*altair.SyncCommitteeMessage) error {
@@ -105,7 +126,9 @@ func c08Nodes(n int, tolerated []struct{ client, text string }, real []struct{ c
 
 // VerifC08_Attestations: attestations reach every node in full, and the
 // submission succeeds iff a node accepted or tolerably rejected it in time.
-func VerifC08_Attestations() { c08Attestations(vnd.IntRange("nodes", 1, 2), vnd.IntRange("payload", 1, 3)) }
+func VerifC08_Attestations() {
+	c08Attestations(vnd.IntRange("nodes", 1, 2), vnd.IntRange("payload", 1, 3))
+}
 
 func c08Attestations(n int, p int) {
 	timeout := time.Duration(vnd.I64("timeout"))
@@ -138,6 +161,9 @@ func c08Attestations(n int, p int) {
 				}
 			}
 			vnd.Assert(c == 1, "C08.attestations.every-node-offered-the-full-payload-once")
+		}
+		if nd.behave != bHang {
+			vnd.Assert(vnd.Implies(nd.latency < timeout, !nd.cutOff), "C08.attestations.delivery-to-a-slower-node-is-not-abandoned")
 		}
 		if nd.behave == bAccept || nd.behave == bRejectTolerated {
 			okInTime = vnd.Or(okInTime, nd.latency < timeout)
